@@ -375,6 +375,15 @@ pub fn run(ctx: &mut Ctx) -> (&'static str, String, bool) {
             } else {
                 let mut ws: Vec<u64> = vec![0, 1, tf.unit - 1, tf.unit, tf.unit + 1, 0xffff, 0x10000, 0x10001, 0x7fff_ffff, 0x8000_0000, 0x8000_0001, max / 10 - 1, max / 10, max / 10 + 1, max - 1, max];
                 ws.extend((0..32).map(|b| 1u64 << b));
+                // times that mean something to a person or to LFS (placeholders such as "1:00:00.00" for "no lap
+                // time" are exactly such values), in this field's unit, with their neighbours
+                for ms in [1_000u64, 10_000, 60_000, 100_000, 600_000, 999_990, 1_000_000, 3_599_990, 3_600_000, 6_000_000, 36_000_000, 86_400_000, 100 * 3_600_000, 360_000_000] {
+                    let w = ms / tf.unit;
+                    ws.extend([w.saturating_sub(1), w, w + 1].into_iter().filter(|x| *x <= max));
+                }
+                // a dense stretch around one hour
+                let hour = 3_600_000 / tf.unit;
+                ws.extend((hour.saturating_sub(300)..=(hour + 300).min(max)).step_by(1));
                 for _ in 0..n32 {
                     ws.push(if r.chance(1, 4) { max - r.below(100_000) } else { r.next_u32() as u64 });
                 }
@@ -428,7 +437,7 @@ pub fn run(ctx: &mut Ctx) -> (&'static str, String, bool) {
     ctx.assume("units per field from ref/insim_v9.spec; for the unpinned fields (SMALL_SSP, SMALL_SSG, RIP.CTime/TTime) the library's own unit is used and only self-consistency is demanded");
     (
         "exploration",
-        "all 256 race-length bytes (directly and through STA/RST) and Laps(0..=2000), Hours(0..=300) + width-boundary values; every time field: all 65536 wire values of 16-bit fields, boundary-biased + random 32-bit wire values, and durations up to and beyond the range with sub-unit remainders (incl. Duration::MAX); distinct = distinct (field, value)".into(),
+        "all 256 race-length bytes (directly and through STA/RST) and Laps(0..=2000), Hours(0..=300) + width-boundary values; every time field: all 65536 wire values of 16-bit fields, boundary-biased, humanly meaningful (1 s ... 100 h, +-1) and random 32-bit wire values, and durations up to and beyond the range with sub-unit remainders (incl. Duration::MAX); distinct = distinct (field, value)".into(),
         true,
     )
 }
